@@ -69,16 +69,8 @@ def gen(ctx):
     for _ in range(20000 if ctx.thorough else 1000):
         n = rng.randrange(0, 60)
         yield cmp_case(bytes(rng.choice(b"()# \n\t:=+-!<>|&._0129azAZdefwhnRpotrlu\xc3\xa9\xff\x00\xe2\x82") for _ in range(n)), tags=("randbytes",))
-    # every stateful instruction (if / !if / ewma) in every operand position of every operator, bound to every kind of target,
-    # as a statement and as a condition
-    OPS16 = ["+", "-", "*", "/", "max", "min", "wrapped_max", "==", "<", ">", "&&", "||", "if", "!if", "ewma", ":="]
-    for outer in OPS16:
-        for inner in ("(if true 3)", "(!if false 3)", "(ewma 2 Flow.rtt_sample_us)", "(if (ewma 2 1) 3)", "(ewma (if true 1) 3)"):
-            for shape in ("(%s %s 3)" % (outer, inner), "(%s 3 %s)" % (outer, inner), "(%s %s %s)" % (outer, inner, inner)):
-                for tgt in ("Report.x", "c", "loc", "Cwnd"):
-                    yield cmp_case("(def (Report (x 0)) (c 1)) (when true (:= %s %s) (report))" % (tgt, shape), tags=("stateful-grid",))
-                yield cmp_case("(def (Report (x 0)) (c 1)) (when true %s (report))" % shape, tags=("stateful-grid",))
-                yield cmp_case("(def (Report (x 0)) (c 1)) (when %s (report))" % shape, tags=("stateful-grid",))
+    for src in G.corner_programs():
+        yield cmp_case(src, tags=("corner-grid",))
     # non-ASCII text at every byte offset of every place where the compiler quotes the source in an error message
     base_def, base_ev = "(def (Report (x 0)) (c 1))", "(when true (:= Report.x 1) (report))"
     for k in range(0, 72):
